@@ -28,6 +28,8 @@ ActsCreate == {a \in Only({"insert1", "insertbad", "insertbad2", "insertdup", "r
               \cup {a \in Only({"insertsel"}) : a.t = NewFile /\ a.u = "f1"}
               \cup {a \in Only({"createas"}) : a.u = "f1"}
               \cup Only({"create", "commit", "rollback"})
+              \cup {a \in Only({"createifnot"}) : a.t \in {NewFile, "f1"}}
+              \cup {a \in Only({"insert1", "update", "select", "disk"}) : a.t = "f1" /\ a.k \in {0, 1}}
 \* typed cells (datetime values) and values taken from other tables' cells: written, compared, read again
 ActsTyped == {a \in Only({"insertd", "deleted", "selectd", "select", "update", "updateswap", "delete", "replace", "insert1"}) : a.t \in {"f1", TempT} /\ a.k \in {0, 1}}
              \cup {a \in Only({"insertsub"}) : a.t \in {"f1", TempT} /\ a.u \in {"f1", "f2", TempT} /\ a.k = 1}
